@@ -124,6 +124,11 @@ def discharge(cx, obligations, timeout_s=10.0, jobs=None, progress=None):
             if r["status"] == "unsat":
                 ob.result = r
                 return ob
+        r = solve_multi([("small3k", cx.query(ob, relevant=True, level="small3000"), False),
+                         ("small8k", cx.query(ob, relevant=True, level="small8000"), False)], min(timeout_s, 5.0))
+        if r["status"] == "unsat":
+            ob.result = r
+            return ob
         r = solve_multi([("rel", cx.query(ob, relevant=True), False), ("full", cx.query(ob), True)] + ([("same", qs, False)] if qs else []), timeout_s)
         if r["status"] != "unsat":
             r2 = solve_multi([("dir", cx.query(ob, relevant=True, level=0), False)], min(timeout_s, 10.0))
